@@ -27,15 +27,15 @@ ASSUMPTIONS = ["integer groups: non-identity of arbitrary_element(seed) assumes 
 
 
 def jobs(tier):
-    lens = [0, 1, 2, 64, 65] if tier == "quick" else [0, 1, 2, 3, 31, 32, 33, 63, 64, 65, 130]
+    lens = [0, 1, 2, 64, 65, 130] if tier == "quick" else [0, 1, 2, 3, 31, 32, 33, 55, 56, 63, 64, 65, 119, 127, 128, 129, 130, 200]
     js = []
     for g in ("I1024", "I2048", "I3072", "Ed25519"):
         for n in lens:
             js.append(("job_p2s", dict(_name="password_to_scalar %s len=%d" % (g, n), gname=g, n=n)))
     for g in ("I1024", "I2048", "I3072"):
-        for n in ([0, 1, 9] if tier == "quick" else [0, 1, 2, 9, 64, 65]):
+        for n in ([0, 1, 9, 65, 130] if tier == "quick" else [0, 1, 2, 9, 63, 64, 65, 128, 129, 200]):
             js.append(("job_arb_int", dict(_name="arbitrary_element %s seedlen=%d" % (g, n), gname=g, n=n)))
-    for n in ([0, 1, 9] if tier == "quick" else [0, 1, 2, 9, 64, 65]):
+    for n in ([0, 1, 9, 65, 130] if tier == "quick" else [0, 1, 2, 9, 63, 64, 65, 128, 129, 200]):
         js.append(("job_arb_ed", dict(_name="arbitrary_element Ed25519 seedlen=%d" % n, n=n, incs=3 if tier == "quick" else 6)))
     js.append(("job_constants", dict(_name="released M/N/S constants (ground)")))
     return js
